@@ -9,7 +9,10 @@ for s in sorted(res):
     if not ch:
         continue
     notes = open(os.path.join(ROOT, "seeded", s, "notes.md")).read().splitlines()
-    title = next((l.lstrip("# ").strip() for l in notes if l.startswith("#")), s)
+    first = next((l.strip() for l in notes if l.strip()), s)
+    # the title is the first line when it is prose, else the first heading
+    title = first if not first.startswith("#") else next((l.lstrip("# ").strip() for l in notes if l.startswith("#")), s)
+    title = re.sub(r"^(Title|\*\*Title\*\*)\s*[:：]\s*", "", title.strip("* "))
     title = re.sub(r"^(Seed(ed)?( mutation)?\s*)?%s\s*[-—:]*\s*" % s, "", title, flags=re.I)
     prop = res[s].get("property", s[:3])
     own = ch.get(prop, {})
